@@ -56,6 +56,9 @@ def run(ctx):
     for name, build, is_known in witnesses(I):
         g = build()
         roundtrip_case(ctx, I, name, [g], None, coq_cases, corpus=True)
+    # tuples that complete late (cycle-bound) and are mentioned again afterwards, at every container position
+    for name, g in late_tuple_graphs(I):
+        roundtrip_case(ctx, I, name, [g], None, coq_cases, corpus=True)
 
     # ---- 2. findings: deterministic witnesses of the known-defective region
     finding_witnesses(ctx, I)
@@ -83,7 +86,10 @@ def run(ctx):
 
     # ---- 5. calls over a Broker pair: sharing inside one call, never between two calls
     for i in range(ctx.n(25, 300)):
-        call_case(ctx, I, i, coq_cases)
+        call_case(ctx, I, "call%d" % i, random_argsets(I, rng), coq_cases, vi=1 if rng.random() < 0.5 else None)
+    for name, argsets in late_tuple_calls(I) + computed_copy_calls(I):
+        call_case(ctx, I, name, argsets, coq_cases, vi=None, chunk="one")
+        call_case(ctx, I, name + "/bytewise", argsets, coq_cases, vi=1, chunk="bytewise")
 
     # ---- 6. correspondence with the Coq model
     if model_ok:
@@ -152,6 +158,73 @@ def witnesses(I):
     ]
 
 
+def late_tuples(I):
+    """[(name, first, late)]: `first` is an object graph whose serialization contains the tuple `late`, which lies on a cycle
+    through a mutable container and therefore can only be completed after its own CLOSE"""
+    out = []
+    L = []; t0 = (L, 5); t1 = (t0, 6); L.append(t1)
+    out.append(("list-cycle", t0, t1))                       # t1 waits for t0
+    L = []; t0 = (L,); t1 = (t0,); t2 = (7, t1); L.append(t2)
+    out.append(("chain2", t0, t2))                           # t2 waits for t1 waits for t0
+    L = []; t0 = (L,); t1 = (t0,); t2 = (7, t1); L.append(t2)
+    out.append(("chain2-mid", t0, t1))
+    d = {}; t0 = (d, 1); t1 = (2, t0, t0); d["x"] = [t1]
+    out.append(("dict-cycle", t0, t1))
+    c = I.CA(); t0 = (c,); t1 = (t0, 1); c.x = [t1]          # hashable variant (usable as key / set member)
+    out.append(("hashable", t0, t1))
+    c = I.CB(); t0 = (c, 3); t1 = (t0,); t2 = (t1, t0); c.y = {"k": [t2, t1]}
+    out.append(("hashable-chain", t0, t2))
+    s_ = set(); c = I.CA(); t0 = (c,); t1 = (1, t0); c.s = s_; s_.add(t1)
+    out.append(("set-cycle", t0, t1))
+    return out
+
+
+def positions(I, late):
+    """containers that mention an already-sent tuple again: every position a value can occupy"""
+    out = [("list-item", [late]), ("twice", [late, late]), ("dict-value", {"k": late}), ("tuple-elem", (late, 5)),
+           ("nested", ([late], {"a": (late,)}))]
+    c = I.CB(); c.v = late
+    out.append(("copy-attr", [c]))
+    out.append(("computed-copy-state", [I.Basket([1, 2], late)]))
+    if I.is_hashable(late):
+        out += [("dict-key", {late: 1}), ("set-member", {late, 0}), ("frozenset-member", frozenset([late])),
+                ("key-and-value", {late: late})]
+    return out
+
+
+def late_tuple_graphs(I):
+    out = []
+    for name, first, late in late_tuples(I):
+        for pname, holder in positions(I, late):
+            out.append(("late-%s/%s" % (name, pname), [first, holder]))
+            out.append(("late-%s/%s/tuple-root" % (name, pname), (first, holder)))
+        out.append(("late-%s/dict-root" % name, {"a": first, "b": late, "c": [late]}))
+    return out
+
+
+def late_tuple_calls(I):
+    out = []
+    for name, first, late in late_tuples(I):
+        for pname, holder in positions(I, late):
+            out.append(("call-late-%s/%s" % (name, pname), [((first, holder), {}), ((holder,), {"kw": first})]))
+        out.append(("call-late-%s/args" % name, [((first, late, late), {"z": late}), ((late, first), {})]))
+    return out
+
+
+def computed_copy_calls(I):
+    """several pass-by-copy objects with state computed at serialization time inside one call scope"""
+    B, Pt = I.Basket, I.Point
+    sets = [[3, 1, 2], [10, 30, 20], [7], [5, 6], [], [40, 41, 42, 43]]
+    return [
+        ("computed/list-of-baskets", [(([B(x) for x in sets],), {}), ((B([1]), B([2]), B([3])), {})]),
+        ("computed/kwargs", [((), {"left": B([2, 1]), "right": B([9, 8]), "up": B([4])}), ((B([5]),), {"k": B([6])})]),
+        ("computed/points", [(([Pt(1, 2), Pt(3, 4), Pt(5, 6)],), {}), ((Pt(0, 0), (Pt(1, 1), Pt(2, 2))), {"d": {"a": Pt(7, 8), "b": Pt(9, 9)}})]),
+        ("computed/mixed", [(([B([1, 2]), [8, 9], Pt(1, 2), {"q": [1]}, B([3]), {5, 6}, Pt(3, 3), [0]],), {}),
+                            ((B([1, 2], [1, 2]), B([1, 2], [1, 2])), {})]),
+        ("computed/same-instance-twice", [((lambda b: (b, b, [b, b]))(B([1, 2, 3])), {}), ((lambda p: ([p, p], p))(Pt(4, 5)), {})]),
+    ]
+
+
 def sig_for_failure(kind, text, hazards):
     """stable signature for a failed round trip"""
     if kind == "send":
@@ -169,6 +242,7 @@ def sig_for_failure(kind, text, hazards):
 
 def roundtrip_case(ctx, I, name, objs, voc, coq_cases, corpus=False):
     """objs: top-level objects sent one after the other through one storage Banana (scoped root)"""
+    I.KEEP.clear()
     try:
         terms, nend = I.canon_list_py(objs, 0, True)
     except I.Unsupported as e:
@@ -358,20 +432,31 @@ def switch_case(ctx, I, i, switch_cases):
     switch_cases.append(dict(tbl0=tbl0, t1=t1, tbl1=tbl1, t2=t2, data=data))
 
 
-def call_case(ctx, I, i, coq_cases):
-    """two successive calls on one connection, sharing objects inside each call and between the calls"""
-    rng = ctx.rng
+def random_argsets(I, rng):
     shared = I.gen_graph(rng, rng.choice([1, 2, 4]), 16)
     if not isinstance(shared, (list, dict, set)):
         shared = [shared]
     other = I.gen_graph(rng, rng.choice([1, 2, 4]), 16)
-    vi = 1 if rng.random() < 0.5 else None
+    # pass-by-copy objects whose slicers build temporary state, several times inside one call scope
+    def comp():
+        if rng.random() < 0.7:
+            return I.Basket([rng.randrange(0, 50) for _ in range(rng.randrange(0, 5))], shared if rng.random() < 0.3 else None)
+        return I.Point(rng.randrange(-9, 9), rng.randrange(-9, 9))
+    comps = [comp() for _ in range(rng.choice([2, 3, 4, 6]))]
+    first = ((shared, other, shared, comps), {"kw": [shared], "left": comp(), "right": comp()})
+    second = ((shared, [shared, other], tuple(comps[:2]) + (comp(),)), {"m": {"a": comp(), "b": comp()}})
+    return [first, second]
+
+
+def call_case(ctx, I, name, argsets, coq_cases, vi=None, chunk=None):
+    """successive calls on one connection (then one echo whose value comes back in an answer scope): sharing inside each
+    call is kept, nothing is shared between calls, every pass-by-copy instance arrives with its own state"""
+    rng = ctx.rng
+    I.KEEP.clear()
     P = I.Pair(vi)
     voc = vocab_v1() if vi else None
-    argsets = [((shared, other, shared), {"kw": [shared]}), ((shared, [shared, other]), {})]
     try:
         for a, kw in argsets:
-            sc = []
             for x in list(a) + [kw[k] for k in sorted(kw)]:
                 I.canon_py(x, 0, [{}])
     except (I.Unsupported, RecursionError):
@@ -380,18 +465,15 @@ def call_case(ctx, I, i, coq_cases):
     sent_bytes = []
     terms = []
     n = n0
-    ok = True
     for ci, (a, kw) in enumerate(argsets):
-        reqid = P.caller.current_reqID + 1 if hasattr(P.caller, "current_reqID") else None
         res = []
         with I.E.quiet():
             P.rr.callRemote("take", *a, **kw).addBoth(res.append)
             I.E.turn()
-        data = P.pump(P.caller, P.callee, rng, rng.choice(["one", "bytewise", "random"]))
+        data = P.pump(P.caller, P.callee, rng, chunk or rng.choice(["one", "bytewise", "random"]))
         sent_bytes.append(data)
         P.pump(P.callee, P.caller)
         # canonical term of the call sequence: call(reqID, clid, method, arguments(nargs, args.., kwname, kwvalue..))
-        reqid = len(P.target.calls) if reqid is None else reqid
         argscope = I.Scope(b"arguments", [len(a)] + list(a) + [x for k in sorted(kw) for x in (k.encode(), kw[k])])
         callscope = I.Scope(b"call", [0, P.clid, b"take", argscope])       # reqID filled in below
         try:
@@ -402,33 +484,35 @@ def call_case(ctx, I, i, coq_cases):
         ctx.traces += 1
     if I.deferred_hazards(terms, n0):
         return
-    if len(P.target.calls) != 2 or P.t_caller.closed or P.t_callee.closed:
-        ctx.fail("oracle/call-not-delivered", "a call whose arguments share objects was not delivered (delivered %d of 2, connection %s)"
-                 % (len(P.target.calls), "closed" if P.t_caller.closed or P.t_callee.closed else "open"),
-                 replay=dict(case="call%d" % i, args=repr(argsets)[:1500]))
+    shape = " ; ".join(I.term_coq(t) for t in terms)[:900]
+    if len(P.target.calls) != len(argsets) or P.t_caller.closed or P.t_callee.closed:
+        ctx.fail("oracle/call-not-delivered", "a call whose arguments share objects was not delivered (delivered %d of %d, connection %s); calls: %s"
+                 % (len(P.target.calls), len(argsets), "closed" if P.t_caller.closed or P.t_callee.closed else "open", shape),
+                 replay=dict(case=name, args=repr(argsets)[:1500], terms=shape))
         return
     ctx.case(dict(call=[I.term_coq(t) for t in terms], v=vi), nontrivial=True)
-    # oracle: each call's arguments arrive isomorphic (sharing inside the call kept) ...
+    # oracle: each call's arguments arrive isomorphic (values, types, sharing inside the call kept, none invented) ...
     for (a, kw), (ra, rkw) in zip(argsets, P.target.calls):
         d = I.oracle_iso([list(a), kw], [list(ra), rkw])
         if d:
             ctx.fail("oracle/call/" + oracle_sig(d) if not I.tuple_ref_after_dict_value_ref(terms, n0)
-                     else "oracle/graph-changed/tuple-ref-after-dict-value-ref", "arguments of a call changed in transit: %s" % d,
-                     replay=dict(case="call%d" % i, args=repr((a, kw))[:1500]))
+                     else "oracle/graph-changed/tuple-ref-after-dict-value-ref", "arguments of a call changed in transit: %s; call: %s" % (d, shape),
+                     replay=dict(case=name, args=repr((a, kw))[:1500], terms=shape))
             return
-    # ... and nothing is shared between the two calls, nor with the caller's objects
-    roots = [(P.target.calls[0][0], P.target.calls[0][1]), (P.target.calls[1][0], P.target.calls[1][1])]   # kept alive: ids stay unique
-    ids1 = I.mutable_ids(roots[0])
-    ids2 = I.mutable_ids(roots[1])
+    # ... and nothing is shared between the calls, nor with the caller's objects
+    roots = [(c[0], c[1]) for c in P.target.calls]          # kept alive: ids stay unique
+    idsets = [I.mutable_ids(r) for r in roots]
     sent_ids = I.mutable_ids(tuple(argsets))
-    if (ids1 | ids2) & sent_ids:
-        ctx.fail("oracle/call/not-a-copy", "a received argument is the caller's own object", replay=dict(case="call%d" % i))
+    if set().union(*idsets) & sent_ids:
+        ctx.fail("oracle/call/not-a-copy", "a received argument is the caller's own object", replay=dict(case=name))
         return
-    if ids1 & ids2:
-        ctx.fail("oracle/call/sharing-leaks-between-calls", "the results of two separate calls share %d object(s) by identity" % len(ids1 & ids2),
-                 replay=dict(case="call%d" % i, args=repr(argsets)[:1500]))
-        return
-    ctx.hist("outcome", "two-calls-delivered-isolated")
+    for x in range(len(idsets)):
+        for y in range(x + 1, len(idsets)):
+            if idsets[x] & idsets[y]:
+                ctx.fail("oracle/call/sharing-leaks-between-calls", "the results of two separate calls share %d object(s) by identity"
+                         % len(idsets[x] & idsets[y]), replay=dict(case=name, args=repr(argsets)[:1500], terms=shape))
+                return
+    ctx.hist("outcome", "calls-delivered-isolated")
     # the request ids are whatever the broker chose: read them back from the first INT after "call"
     fixed = []
     for t, data in zip(terms, sent_bytes):
@@ -436,7 +520,40 @@ def call_case(ctx, I, i, coq_cases):
         kids = list(t[3])
         kids[0] = ("int", rid)
         fixed.append(("cont", t[1], t[2], kids))
-    coq_cases.append(dict(name="call%d" % i, scoped=False, n=n0, terms=fixed, voc=voc, data=b"".join(sent_bytes), hazard=False))
+    coq_cases.append(dict(name=name, scoped=False, n=n0, terms=fixed, voc=voc, data=b"".join(sent_bytes), hazard=False))
+    # one more call whose value travels back inside an answer scope (AnswerSlicer / AnswerUnslicer)
+    a0 = argsets[0][0]
+    val = list(a0)
+    m0 = P.callee.openCount
+    res = []
+    with I.E.quiet():
+        P.rr.callRemote("echo", val).addBoth(res.append)
+        I.E.turn()
+    P.pump(P.caller, P.callee, rng, chunk or "one")
+    back = P.pump(P.callee, P.caller, rng, chunk or rng.choice(["one", "bytewise", "random"]))
+    I.E.turn()
+    ctx.traces += 1
+    if len(res) != 1 or isinstance(res[0], I.Failure):
+        ctx.fail("oracle/answer-not-delivered", "the value returned by a remote method did not arrive: %r; value: %s" % (res[:1], shape[:500]),
+                 replay=dict(case=name, value=repr(val)[:1500]))
+        return
+    d = I.oracle_iso([val], [res[0]])
+    if d:
+        ctx.fail("oracle/answer/" + oracle_sig(d), "the value returned by a remote method changed in transit: %s; value: %s" % (d, shape[:500]),
+                 replay=dict(case=name, value=repr(val)[:1500]))
+        return
+    keep = (res[0],)
+    if I.mutable_ids(keep) & (set().union(*idsets) | sent_ids):
+        ctx.fail("oracle/call/sharing-leaks-between-calls", "an answer shares objects with earlier calls or with the sender", replay=dict(case=name))
+        return
+    ctx.hist("outcome", "answer-delivered")
+    try:
+        rid = first_int_after_call(back, voc)
+        t, _ = I.canon_py(I.Scope(b"answer", [rid, P.target.calls[-1][0][0]]), m0, [])
+        if not I.deferred_hazards([t], m0):
+            coq_cases.append(dict(name=name + "-answer", scoped=False, n=m0, terms=[t], voc=voc, data=back, hazard=False))
+    except (I.Unsupported, RecursionError, AssertionError, IndexError):
+        pass
 
 
 def first_int_after_call(data, voc):
